@@ -78,7 +78,8 @@ CTX_TEXT = st.one_of(st.text(max_size=10), st.text(alphabet='kéy€\U0001F600v'
 
 
 def strategy(tier):
-  key = CTX_TEXT.filter(lambda k: not k.startswith('__') and k not in (CLIENT_ID_KEY, DEADLINE_KEY))
+  key = st.one_of(CTX_TEXT, st.sampled_from(['_', '_trace', '_a_', 'a_', '_x.y', 'x__'])).filter(
+      lambda k: not k.startswith('__') and k not in (CLIENT_ID_KEY, DEADLINE_KEY))
   call = c14._call().flatmap(lambda c: st.sampled_from(['reply', 'reply', 'reply_ctx', 'never']).map(lambda b: dict(c, behave=b)))
   hello = st.fixed_dictionaries({'m': st.just('hi'), 'args': st.tuples(c14.TEXT).map(list), 'outcome': st.just('value'),
                                  'ret': c14.TEXT, 'kw': st.booleans(), 'behave': st.sampled_from(['reply', 'reply_ctx', 'never'])})
